@@ -341,6 +341,62 @@ Proof.
   - destruct (first_parent _ _); [|exact H]. now apply mirror_put_plain.
 Qed.
 
+Lemma frame_edit_body : forall pn o t,
+  frame t (let above := after_name pn (t_applied t) in
+           let '(t1, extra) := pop_patches (fun n => mem n above) t in
+           match extra with
+           | _ :: _ => TPanic
+           | [] => tbind (update_patch pn o t1) (push_patches above false)
+           end).
+Proof.
+  intros pn o t. cbv zeta.
+  pose proof (fr_pop (fun n => mem n (after_name pn (t_applied t))) t) as Hp.
+  destruct (pop_patches _ t) as [t1 extra]. cbn [fst] in Hp.
+  destruct extra; [|exact I].
+  eapply frame_fr; [exact Hp|]. apply frame_tbind; [apply frame_update_patch|].
+  intros t2 _. apply frame_push_patches.
+Qed.
+
+Lemma run_edit_mirror : forall w l m msg, mirror w -> mirror (fst (run_edit w l m msg)).
+Proof.
+  intros w l m msg H. unfold run_edit, put.
+  destruct (match l with Some o => _ | None => _ end) as [loc_l|]; [|exact H].
+  destruct (open_stack PAllow w) as [op|] eqn:Eo; [apply open_op_mir in Eo|exact H].
+  destruct (negb (head_top_ok op)); [mir|].
+  match goal with |- mirror (fst (rres_bind _ ?r _)) => destruct r as [pn| |]; cbn [rres_bind]; [|mir|mir] end.
+  destruct (pm_get _ pn) as [pc|]; [|mir].
+  destruct (get _ pc) as [old|]; [|mir].
+  destruct (_ && _); [mir|].
+  apply transact_mirror; [apply op_mir_with_objs; [exact Eo|apply store_extends_put]|].
+  apply frame_edit_body.
+Qed.
+
+Lemma mirror_reset_hard : forall w o wt um, mirror w ->
+  mirror (mkWorld (w_objs w) o (w_stack w) (w_prefs w) wt um (w_base w)).
+Proof. intros w o wt um H. eapply mirror_dep; [| | |exact H]; reflexivity. Qed.
+
+Lemma run_rebase_mirror : forall w t, mirror w -> mirror (fst (run_rebase w t)).
+Proof.
+  intros w tg H. unfold run_rebase.
+  destruct (open_stack PRequire w) as [op|] eqn:Eo; [apply open_op_mir in Eo|exact H].
+  destruct (resolve_gtarget (op_world op) tg) as [target|]; [|mir].
+  destruct (Nat.eqb target (op_base op)); [mir|].
+  destruct (negb (head_top_ok op)); [mir|].
+  destruct (dirty (op_world op)); [mir|].
+  match goal with |- context [transact ?o ?a ?f ?m] =>
+    assert (Hm : mirror (fst (transact o a f m)));
+    [|destruct (transact o a f m) as [w2 x]] end.
+  { apply transact_mirror; [exact Eo|]. cbv beta. cbn [frame]. apply fr_pop. }
+  cbn [fst] in Hm. destruct x; try exact Hm.
+  pose proof (mirror_reset_hard w2 target (tree_of (w_objs w2) target) false Hm) as Hm3.
+  destruct (open_stack PRequire _) as [op3|] eqn:Eo3; [apply open_op_mir in Eo3|exact Hm3].
+  destruct (log_extmods_first op3) as [op4|] eqn:El.
+  - apply (log_extmods_first_op_mir _ _ Eo3) in El.
+    destruct (negb (head_top_ok op4)); [mir|].
+    apply transact_mirror; [exact El|]. apply frame_push_patches.
+  - mir.
+Qed.
+
 Theorem step_mirror : forall lower_s w c, mirror w -> mirror (fst (step lower_s w c)).
 Proof.
   intros lower_s w c H. destruct c; cbn [step].
@@ -365,6 +421,8 @@ Proof.
   - now apply run_reset_mirror.
   - now apply run_repair_mirror.
   - now apply run_log_clear_mirror.
+  - now apply run_edit_mirror.
+  - now apply run_rebase_mirror.
   - destruct (open_stack PAllow w) as [op|] eqn:Eo; [|exact H]. now apply open_mirror in Eo.
   - now apply run_git_mirror.
   - now apply run_git_mirror.
